@@ -17,7 +17,8 @@
  *   audio <path>       raw int16 mono samples
  *   start | end        decoder_start_utt / decoder_end_utt
  *   proc <n>           feed the next n samples
- *   lat <tag> <k> <bp> request + dump the lattice; k N-best entries; bp=1: bestpath + posterior too
+ *   lat <tag> <k> <bp> [ops]  request + dump the lattice; k N-best entries; bp=1: bestpath + posterior too;
+ *                      ops: a history of further calls on the same lattice (see run_history)
  */
 #include "common.h"
 #include <soundswallower/decoder.h>
@@ -205,7 +206,9 @@ static void dump_seg(seg_iter_t *seg, const char *tag)
     }
 }
 
-static void cmd_lat(const char *tag, int k, int bp)
+static void run_history(lattice_t *dag, latidx_t *x, float32 ascale, char *ops);
+
+static void cmd_lat(const char *tag, int k, int bp, char *ops)
 {
     fsg_search_t *fs = (fsg_search_t *)dec->search;
     lattice_t *dag, *dag2;
@@ -290,7 +293,7 @@ static void cmd_lat(const char *tag, int k, int bp)
     /* N-best through the public iterator */
     if (k > 0) {
         hyp_iter_t *nb = decoder_nbest(dec);
-        int j = 0, tried = 0, ins = 0, rej = 0, npath = 0;
+        int j = 0, tried = 0, ins = 0, rej = 0, npath = 0, maxnp = 0;
         while (nb && j < k) {
             int32 sc = 0;
             const char *h = hyp_iter_hyp(nb, &sc);
@@ -305,7 +308,7 @@ static void cmd_lat(const char *tag, int k, int bp)
             for (m = 0; m < len; m++) printf(" %d", ids[m]);
             printf("\n");
             free(ids);
-            {
+            if (j < 64) {       /* segmentations of the head of the list only (deep reads would be huge) */
                 char t[32];
                 sprintf(t, "BX %d", j);
                 dump_seg(hyp_iter_seg(nb), t);
@@ -313,10 +316,12 @@ static void cmd_lat(const char *tag, int k, int bp)
             fflush(stdout);
             j++;
             tried = nb->n_hyp_tried; ins = nb->n_hyp_insert; rej = nb->n_hyp_reject; npath = nb->n_path;
+            if (npath > maxnp) maxnp = npath;
             nb = hyp_iter_next(nb);
             if (nb) { tried = nb->n_hyp_tried; ins = nb->n_hyp_insert; rej = nb->n_hyp_reject; npath = nb->n_path; }
+            if (npath > maxnp) maxnp = npath;
         }
-        printf("BN %d more=%d tried=%d inserted=%d rejected=%d npath=%d\n", j, nb ? 1 : 0, tried, ins, rej, npath);
+        printf("BN %d more=%d tried=%d inserted=%d rejected=%d npath=%d maxnpath=%d\n", j, nb ? 1 : 0, tried, ins, rej, npath, maxnp);
         /* the A* heuristic as astar_search_start left it in the nodes (info.rem_score) */
         printf("RS");
         for (i = 0; i < x.n_nodes; i++) printf(" %d", x.nodes[i]->info.rem_score);
@@ -353,6 +358,8 @@ static void cmd_lat(const char *tag, int k, int bp)
                 printf("PH "); hexs(lh); printf("\n");
             }
         }
+        /* a history of further API calls on the same lattice (repeated / abandoned passes) */
+        if (best && ops && strcmp(ops, "-")) run_history(dag, &x, ascale, ops);
         /* the object must still be the cached one */
         dag2 = decoder_lattice(dec);
         printf("S same_after=%d\n", dag == dag2 ? 1 : 0);
@@ -360,6 +367,52 @@ static void cmd_lat(const char *tag, int k, int bp)
     free(x.nodes); free(x.links);
     lattice_free(dag);
     printf("LAT end %s\n", tag);
+}
+
+/* ops, comma separated:  b = lattice_bestpath;  p = lattice_posterior;  t<n> = lattice_traverse_edges + n x
+ * lattice_traverse_next, then abandoned;  r<n> = the same with lattice_reverse_edges/_next;  n<k> = decoder_nbest,
+ * k x hyp_iter_next, then hyp_iter_free.  Every pass prints everything it is specified to compute. */
+static void run_history(lattice_t *dag, latidx_t *x, float32 ascale, char *ops)
+{
+    char *save = NULL, *op;
+    int step = 0, i;
+    for (op = strtok_r(ops, ",", &save); op; op = strtok_r(NULL, ",", &save), step++) {
+        printf("HO %d %s\n", step, op);
+        fflush(stdout);
+        if (op[0] == 'b') {
+            latlink_t *best = lattice_bestpath(dag, ascale);
+            printf("HB %d best=%d score=%d norm=%d\n", step, link_ix(x, best), best ? best->path_scr : 0, dag->norm);
+            printf("HS %d", step); for (i = 0; i < x->n_links; i++) printf(" %d", x->links[i]->path_scr); printf("\n");
+            printf("HV %d", step); for (i = 0; i < x->n_links; i++) printf(" %d", link_ix(x, x->links[i]->best_prev)); printf("\n");
+            printf("HA %d", step); for (i = 0; i < x->n_links; i++) printf(" %d", x->links[i]->alpha); printf("\n");
+        } else if (op[0] == 'p') {
+            int32 post = lattice_posterior(dag, ascale);
+            printf("HP %d post=%d norm=%d\n", step, post, dag->norm);
+            printf("HE %d", step); for (i = 0; i < x->n_links; i++) printf(" %d", x->links[i]->beta); printf("\n");
+        } else if (op[0] == 't' || op[0] == 'r') {
+            int n = atoi(op + 1), cnt = 0;
+            latlink_t *l = (op[0] == 't') ? lattice_traverse_edges(dag, NULL, NULL) : lattice_reverse_edges(dag, NULL, NULL);
+            while (l && cnt < n) {
+                l = (op[0] == 't') ? lattice_traverse_next(dag, NULL) : lattice_reverse_next(dag, NULL);
+                cnt++;
+            }
+            printf("HT %d steps=%d abandoned=%d\n", step, cnt, l ? 1 : 0);
+        } else if (op[0] == 'n') {
+            int k = atoi(op + 1), j = 0;
+            hyp_iter_t *nb = decoder_nbest(dec);
+            printf("HN %d", step);
+            while (nb && j < k) {
+                int32 sc = 0;
+                hyp_iter_hyp(nb, &sc);
+                printf(" %d", sc);
+                j++;
+                nb = hyp_iter_next(nb);
+            }
+            printf("\n");
+            if (nb) hyp_iter_free(nb);
+        }
+        fflush(stdout);
+    }
 }
 
 int main(int argc, char **argv)
@@ -395,7 +448,8 @@ int main(int argc, char **argv)
             int rv = decoder_end_utt(dec);
             printf("end %d %d\n", rv, fs ? fs->frame : -99);
         }
-        else if (!strcmp(w[0], "lat") && n == 4) cmd_lat(w[1], atoi(w[2]), atoi(w[3]));
+        else if (!strcmp(w[0], "lat") && n == 4) cmd_lat(w[1], atoi(w[2]), atoi(w[3]), NULL);
+        else if (!strcmp(w[0], "lat") && n == 5) cmd_lat(w[1], atoi(w[2]), atoi(w[3]), w[4]);
         else printf("bad-op\n");
         fflush(stdout);
     }
